@@ -943,6 +943,7 @@ def _has_alias_column(x, alias):
     if isinstance(x, (list, tuple)):
         if len(x) == 3 and x[0] == 'COLUMN' and x[1] == alias: return True
         if len(x) == 3 and x[0] in ('IN', 'NOT_IN') and x[2] == []: return False      # rendered `0 = 1` / `1 = 1`: the operand is not in the SQL text
+        if len(x) == 2 and x[0] in ('IS_NULL', 'IS_NOT_NULL'): return False             # SQLite folds `<NOT NULL column> IS NULL` before scoping the aggregate
         return any(_has_alias_column(y, alias) for y in x if isinstance(y, (list, tuple)))
     return False
 
